@@ -39,3 +39,17 @@ Print Assumptions C04_ranking.
 Theorem C04_code_mirror_computes_the_order : forall a b, compare_m a b = Ok (cmp_value a b).
 Proof. exact compare_m_correct. Qed.
 Print Assumptions C04_code_mirror_computes_the_order.
+
+(* ---- the byte walkers themselves (CompareWalk.v: compare / compare_scalar / compare_container / compare_array /
+   compare_object with two buffers and absolute offsets, `read_u32(..)?` = error, an index expression out of bounds =
+   panic): on the encodings of any two well-formed documents every entry word, key and payload the walkers read is
+   the one they mean to read, nothing errs or panics, and the answer is the order of the documents. *)
+From JB Require Import Codec DispatchProofs CompareWalk CompareWalkProofs.
+Theorem C04_bytes_compare : forall a b, wfb a = true -> wfb b = true -> compare_b (enc a) (enc b) = Ok (cmp_value a b).
+Proof. exact compare_b_enc. Qed.
+Print Assumptions C04_bytes_compare.
+
+Theorem C04_bytes_compare_public : forall v w, wfb v = true -> top_ok v -> wfb w = true -> top_ok w ->
+  compare_w (enc v) (enc w) = Ok (cmp_value v w).
+Proof. exact compare_w_enc. Qed.
+Print Assumptions C04_bytes_compare_public.
